@@ -52,7 +52,7 @@ class Modes(Stage):
         data = text.encode('utf-8')
         return dict(text=text, chunks=[gen_chunks(d, data), gen_chunks(d, data)], exit=d.choice([0, 0, 1, 2, 7, 99, 127, 255, d.int(0, 255)]),
                     argv=[d.choice(ARGS) for _ in range(d.int(0, 5))], marker=d.int(0, 9999), supress=d.chance(0.2), filter=d.choice([None, None, 'wl_display', '* ! .bind']),
-                    linger=d.choice([0, 0, 0, 0, 0, 0, 0, 1.3]), nmsg=len(specs), parent_wayland_debug=d.choice([None, None, '1', 'client', 'server', '0', '']))
+                    linger=d.choice([0, 0, 0, 0, 0, 0, 0, 1.3]), nmsg=len(specs), brk=d.choice([None, None, None, '.sync', 'wl_registry, wl_display', '*', 'wl_display ! .sync', '.bind']), parent_wayland_debug=d.choice([None, None, '1', 'client', 'server', '0', '']))
 
     def execute(self, case):
         res = Result()
@@ -61,6 +61,7 @@ class Modes(Stage):
         opts = ['-C']
         if case.get('supress'): opts.append('--supress')
         if case.get('filter'): opts += ['-f', case['filter']]
+        if case.get('brk'): opts += ['-b', case['brk']]      # `Stopped at` lines are part of the display in every mode
         with cli.Scratch() as sc:
             log = sc.write('stream.log', data, 'wb')
             child = sc.write('child.py', cli.CHILD)
@@ -87,6 +88,9 @@ class Modes(Stage):
                     res.bad('file-mode-passthrough-lines', '%d lines passed through, %d non-message lines in the stream' % (passed, nother))
             if out_f != out_p:
                 res.bad('file-vs-pipe-display', first_diff(out_f, out_p))
+            if case.get('brk'):
+                # pipe mode says once that nothing can be stopped there; the display itself must not differ
+                err_p = err_p.replace(b'Warning: Ignoring stop matcher when stdin is used for messages\n', b'', 1)
             if err_f != err_p:
                 res.bad('file-vs-pipe-stderr', first_diff(err_f, err_p))
             marker = (MARKER % case['marker'])
@@ -98,12 +102,12 @@ class Modes(Stage):
                 extra = dict(WDV_CHILD_SPEC=spec)
                 if case.get('parent_wayland_debug') is not None:
                     extra['WAYLAND_DEBUG'] = case['parent_wayland_debug']     # wayland-debug itself started from such an environment
-                rc, out, err = cli.run_main(opts + ['-r', cli.PY, child] + case['argv'], stdin=b'q\n', extra_env=extra)
+                rc, out, err = cli.run_main(opts + ['-r', cli.PY, child] + case['argv'], stdin=b'r\n' * (case['nmsg'] + 2 if case.get('brk') else 0) + b'q\n', extra_env=extra)
                 res.evals += 1
                 if b'Failed to join subprocess thread' in err and linger:
                     # the program closed its stderr and exited 1.3 s later: the tool must wait for it and hand on its exit status.
                     # Confirm once more before calling it a violation (wall-clock effects must not raise an alarm)
-                    rc2, out2, err2 = cli.run_main(opts + ['-r', cli.PY, child] + case['argv'], stdin=b'q\n', extra_env=extra)
+                    rc2, out2, err2 = cli.run_main(opts + ['-r', cli.PY, child] + case['argv'], stdin=b'r\n' * (case['nmsg'] + 2 if case.get('brk') else 0) + b'q\n', extra_env=extra)
                     if rc2 != case['exit']:
                         res.bad('exit-status:lingering-program', 'program closed stderr, exited %d after 1.3 s; wayland-debug exited with %r twice (stderr %r)' % (case['exit'], rc2, err2[-200:]))
                     continue
@@ -140,6 +144,7 @@ class Modes(Stage):
         if case['exit']: res.label('non-zero-exit')
         if not case['text'].endswith('\n'): res.label('no-final-newline')
         if any(ord(c) > 127 for c in case['text']): res.label('multi-byte')
+        if case.get('brk'): res.label('with -b')
         if '\r' in case['text']: res.label('carriage-return-in-chatter')
         if any(a.startswith('-') for a in case['argv']): res.label('option-lookalike-argv')
         if case.get('parent_wayland_debug') not in (None, '1'): res.label('parent-WAYLAND_DEBUG-set-otherwise')
